@@ -553,9 +553,17 @@ func c12ExecJoining(in *c12In) *c12Obs {
 		}
 	}, nil)
 	firstFactory := true
-	factoryInj := func() {
-		if firstFactory && in.Inj.Mode == "factory" {
-			inject()
+	// factory injection: N = 1 inside the first factory call that gives a source; N >= 2 inside the live-factory call of the
+	// join (seeded mutant C12-m8: a Shutdown that completes there must still stop the live source that call returns)
+	factoryInj := func(isJoin bool) {
+		if in.Inj.Mode == "factory" {
+			if in.Inj.N >= 2 {
+				if isJoin {
+					inject()
+				}
+			} else if firstFactory {
+				inject()
+			}
 		}
 		firstFactory = false
 	}
@@ -565,8 +573,9 @@ func c12ExecJoining(in *c12In) *c12Obs {
 	live := &c12Factory{fn: func(num uint64, h2 bstream.Handler) bstream.Source {
 		liveCalls++
 		if (liveCalls == 1 && in.LiveFirst) || joinPending {
+			isJoin := joinPending
 			joinPending = false
-			factoryInj()
+			factoryInj(isJoin)
 			ctx.add(c12Lev{K: "F", A: 1})
 			// bstream.Source(nil) vs typed nil: always return a real source here
 			s := newC12Src(ctx, 1, in.LScript, h2, false)
@@ -579,7 +588,7 @@ func c12ExecJoining(in *c12In) *c12Obs {
 		if !in.FileAvail {
 			return nil
 		}
-		factoryInj()
+		factoryInj(false)
 		ctx.add(c12Lev{K: "F", A: 0})
 		s := newC12Src(ctx, 0, in.FScript, h2, false)
 		s.preJoin = func() { joinPending = true }
@@ -1463,6 +1472,9 @@ func c12Corpus() []any {
 		}
 		c := base
 		c.Inj = c12Inj{Mode: "factory", N: 1}
+		add(c)
+		c = base
+		c.Inj = c12Inj{Mode: "factory", N: 2}
 		add(c)
 		c = base
 		c.Inj = c12Inj{Mode: "idle"}
